@@ -384,7 +384,7 @@ func genVia(rng *core.Rand, hr, pr, rr *core.Rand) string {
 	default:
 		hf := strings.Fields(genHostCase(hr))
 		pf := strings.Fields(genPathCase(pr))
-		return "json-set " + hf[1] + " " + pf[1] + " " + hf[2] + " " + pf[2] + " " + pf[3]
+		return rng.Pick([]string{"json-set ", "json-not "}) + hf[1] + " " + pf[1] + " " + hf[2] + " " + pf[2] + " " + pf[3]
 	}
 }
 
